@@ -25,7 +25,7 @@ VARIANTS = [
     V("ea-accept-worse", E, "    if dy <= 0:", "    if dy >= 0:", "fire",
       "D6.4"),
     V("ea-returns-stale", E, "        return int(y + dy)  # return new",
-      "        return int(y)  # return new", "fire", "D6.3"),
+      "        return int(y)  # return new", "fire", "D6.1"),
     V("ea-write-outside", E,
       "    return y  # return old tour length",
       "    x[i:j + 1:1] = x[i:j + 1:1]\n    return y  # return old tour",
@@ -85,9 +85,54 @@ VARIANTS = [
 VARIANTS += [
     V("ea-first-position-reversal-dropped", "moptipyapps/tsp/ea1p1_revn.py",
       "            x[0:j + 1:1] = x[j::-1]", "            pass", "fire",
-      "D6.2", "found by the mutation survey: i == 0 moves were accounted "
+      "D6.3", "found by the mutation survey: i == 0 moves were accounted "
       "for but not applied"),
     V("fea-general-reversal-dropped", "moptipyapps/tsp/fea1p1_revn.py",
       "            x[i:j + 1:1] = x[j:i - 1:-1]", "            pass", "fire",
-      "D6.2"),
+      "D6.3"),
+]
+
+VARIANTS += [
+    V("silent-early-return-on-worsening", E,
+      "    if dy <= 0:  # this is not a worsening improving move? ... so "
+      "apply it\n"
+      "        # reverse the sequence from i to j in the solution\n"
+      "        if i == 0:  # deal with the special case that i==0\n"
+      "            x[0:j + 1:1] = x[j::-1]\n"
+      "        else:  # the normal case that i > 0\n"
+      "            x[i:j + 1:1] = x[j:i - 1:-1]\n"
+      "        return int(y + dy)  # return new tour length\n"
+      "    return y  # return old tour length\n",
+      "    if dy > 0:\n        return y\n"
+      "    if i == 0:\n        x[0:j + 1:1] = x[j::-1]\n"
+      "    else:\n        x[i:j + 1:1] = x[j:i - 1:-1]\n"
+      "    return int(y + dy)\n", "silent"),
+    V("silent-flattened-elif", E,
+      "    if dy <= 0:  # this is not a worsening improving move? ... so "
+      "apply it\n"
+      "        # reverse the sequence from i to j in the solution\n"
+      "        if i == 0:  # deal with the special case that i==0\n"
+      "            x[0:j + 1:1] = x[j::-1]\n"
+      "        else:  # the normal case that i > 0\n"
+      "            x[i:j + 1:1] = x[j:i - 1:-1]\n"
+      "        return int(y + dy)  # return new tour length\n"
+      "    return y  # return old tour length\n",
+      "    if dy > 0:\n        return y\n"
+      "    elif i == 0:\n        x[0:j + 1:1] = x[j::-1]\n"
+      "    else:\n        x[i:j + 1:1] = x[j:i - 1:-1]\n"
+      "    return int(y + dy)\n", "silent"),
+    V("first-position-move-always-applied", E,
+      "    if dy <= 0:  # this is not a worsening improving move? ... so "
+      "apply it\n"
+      "        # reverse the sequence from i to j in the solution\n"
+      "        if i == 0:  # deal with the special case that i==0\n"
+      "            x[0:j + 1:1] = x[j::-1]\n"
+      "        else:  # the normal case that i > 0\n"
+      "            x[i:j + 1:1] = x[j:i - 1:-1]\n"
+      "        return int(y + dy)  # return new tour length\n"
+      "    return y  # return old tour length\n",
+      "    if i == 0:\n        x[0:j + 1:1] = x[j::-1]\n"
+      "    elif dy <= 0:\n        x[i:j + 1:1] = x[j:i - 1:-1]\n"
+      "    else:\n        return y\n"
+      "    return int(y + dy)\n", "fire", "D6.4"),
 ]
